@@ -464,7 +464,11 @@ def _push_public(ctx, R, roles, T):
     it = iters[0]
     pn, pc = pushes[0]
     from ..util import always_reached
-    R.check(always_reached(g, pn, it), "PUSH", q + "|always-transfers", "push returns normally only after every file of the list was handed to _push",
+    from .c15 import exits_only_if_empty
+    starts_ = [d for d, l in g.succ[it] if l == "next"]
+    r_ = g.reach(starts_, avoid=[pn], exc=False, include_start=True)
+    seqs = sorted(set(x.id for x in ast.walk(it.ast.iter) if isinstance(x, ast.Name) and x.id != "zip"))
+    R.check(it not in r_ and g.exit not in r_ and (g.dominates([it], g.exit, exc=False) or exits_only_if_empty(ctx, f, it, seqs)), "PUSH", q + "|always-transfers", "push returns normally only after every file of the list was handed to _push",
             "push can return normally (or go on to the next file) without calling _push: a file is silently not sent", f.loc(pn.ast))
     # "push returns normally only after the device's sync OKAY": a failure of the open / the transfer / the close is not swallowed by a handler
     from .c12 import handler_completes
